@@ -315,4 +315,568 @@ theorem iok4_autolink (ext : IExt) : IOK4 (ruleAutolink ext) := iok4_of _ (iok_a
 theorem iok4_htmlInline (ext : IExt) : IOK4 (ruleHtmlInline ext) :=
   iok4_of _ (iok_htmlInline ext) (keep3_htmlInline ext) (silent_of_shape _ (shape_htmlInline ext))
 
+
+/-! ### the engine under the two-mode contract -/
+
+theorem Ret4.refl_false (s : IState) (h : CacheOK s) : Ret4 s false s := ⟨rfl, rfl, rfl, rfl, rfl, h, by simp, fun _ => rfl⟩
+
+theorem ictx_of_ret {s s' : IState} (hc : ICtx s) (h : Ret4 s false s') : ICtx s' := by
+  obtain ⟨a, _, c, _, _, _, _, e⟩ := h
+  unfold ICtx at *; rw [e rfl, c, a]; exact hc
+
+theorem runChain4 (rules : List IRule) (hok : ∀ r ∈ rules, IOK4 r) : ∀ (s : IState), ICtx s → CacheOK s →
+    ∃ m s', runChain rules s = .ok (m, s') ∧ Ret4 s m s' := by
+  induction rules with
+  | nil => intro s _ hk; exact ⟨false, s, rfl, Ret4.refl_false s hk⟩
+  | cons r rest ih =>
+    intro s hc hk
+    obtain ⟨m, s1, hr, h1⟩ := hok r (by simp) s false hc hk
+    simp only [runChain, hr]
+    cases m with
+    | true => exact ⟨true, s1, rfl, h1⟩
+    | false =>
+      obtain ⟨m2, s2, hr2, h2⟩ := ih (fun q hq => hok q (by simp [hq])) s1 (ictx_of_ret hc h1) h1.2.2.2.2.2.1
+      refine ⟨m2, s2, hr2, ?_⟩
+      obtain ⟨a1, b1, c1, d1, e1, _, _, g1⟩ := h1
+      obtain ⟨a2, b2, c2, d2, e2, f2, p2, g2⟩ := h2
+      exact ⟨a2.trans a1, b2.trans b1, c2.trans c1, d2.trans d1, e2.trans e1, f2, fun hm => by have := p2 hm; have := g1 rfl; omega,
+        fun hm => by rw [g2 hm]; exact g1 rfl⟩
+
+/-- the frame the tokenize loop keeps -/
+def Fr4 (s s' : IState) : Prop :=
+  s'.src = s.src ∧ s'.level = s.level ∧ s'.posMax = s.posMax ∧ s'.scopes = s.scopes ∧ s'.openAt = s.openAt ∧ CacheOK s'
+
+theorem loop4 (rules : List IRule) (hok : ∀ r ∈ rules, IOK4 r) (mn : Int) :
+    ∀ (fuel : Nat) (ok : Bool) (s : IState), s.posMax ≤ s.src.length → s.posMax - s.pos < fuel → CacheOK s →
+      (s.level ≥ mn → ok = false) →
+      ∃ s', tokenizeLoop rules mn s.posMax fuel ok s = .ok s' ∧ Fr4 s s' := by
+  intro fuel
+  induction fuel with
+  | zero => intro _ s _ hf; omega
+  | succ n ih =>
+    intro ok s hend hf hk hstale
+    simp only [tokenizeLoop]
+    split
+    · rename_i hlt
+      by_cases hlv : s.level < mn
+      · simp only [hlv, if_true]
+        obtain ⟨m, s1, hc1, a, b, c, d, e, f, p, g⟩ := runChain4 rules hok s ⟨hlt, hend⟩ hk
+        rw [hc1]
+        simp only
+        cases m with
+        | true =>
+          simp only [if_true]
+          split
+          · exact ⟨s1, rfl, a, b, c, d, e, f⟩
+          · have hpp := p rfl
+            have : ¬ (s1.pos ≤ s.pos) := by omega
+            simp only [this, if_false]
+            rw [← c]
+            obtain ⟨s2, h2, a2, b2, c2, d2, e2, f2⟩ := ih true s1 (by rw [a, c]; exact hend) (by rw [c]; omega) f (by intro h; rw [b] at h; omega)
+            exact ⟨s2, h2, a2.trans a, b2.trans b, c2.trans c, d2.trans d, e2.trans e, f2⟩
+        | false =>
+          simp only [Bool.false_eq_true, if_false]
+          have hpos := g rfl
+          have hin : s1.pos < s1.src.length := by rw [a, hpos]; omega
+          rw [List.getElem?_eq_getElem hin]
+          simp only
+          rw [← c]
+          obtain ⟨s2, h2, a2, b2, c2, d2, e2, f2⟩ := ih false { s1 with pending := s1.pending ++ [s1.src[s1.pos]], pos := s1.pos + 1 }
+            (by show s1.posMax ≤ s1.src.length; rw [a, c]; exact hend) (by show s1.posMax - (s1.pos + 1) < n; rw [c, hpos]; omega) f (by intro _; rfl)
+          exact ⟨s2, h2, a2.trans a, b2.trans b, c2.trans c, d2.trans d, e2.trans e, f2⟩
+      · simp only [hlv, if_false]
+        have hok' : ok = false := hstale (by omega)
+        subst hok'
+        simp only [Bool.false_eq_true, if_false]
+        have hin : s.pos < s.src.length := by omega
+        rw [List.getElem?_eq_getElem hin]
+        simp only
+        obtain ⟨s2, h2, a2, b2, c2, d2, e2, f2⟩ := ih false { s with pending := s.pending ++ [s.src[s.pos]], pos := s.pos + 1 }
+          (by simpa using hend) (by simp; omega) hk (by intro _; rfl)
+        exact ⟨s2, h2, a2, b2, c2, d2, e2, f2⟩
+    · exact ⟨s, rfl, rfl, rfl, rfl, rfl, rfl, hk⟩
+
+theorem runSilent4 (rules : List IRule) (hok : ∀ r ∈ rules, IOK4 r) : ∀ (s : IState), ICtx s → CacheOK s →
+    ∃ m s', runSilent rules s = .ok (m, s') ∧ Ret4 s m s' := by
+  induction rules with
+  | nil => intro s _ hk; exact ⟨false, s, rfl, Ret4.refl_false s hk⟩
+  | cons r rest ih =>
+    intro s hc hk
+    obtain ⟨m, s1, hr, a, b, c, d, e, f, p, g⟩ := hok r (by simp) { s with level := s.level + 1 } true hc hk
+    simp only [runSilent, hr]
+    have hlev : ({ s1 with level := s1.level - 1 } : IState).level = s.level := by show s1.level - 1 = s.level; rw [b]; show s.level + 1 - 1 = s.level; omega
+    cases m with
+    | true =>
+      simp only [if_true]
+      exact ⟨true, _, rfl, a, hlev, c, d, e, f, fun _ => p rfl, by simp⟩
+    | false =>
+      simp only [Bool.false_eq_true, if_false]
+      have hc1 : ICtx { s1 with level := s1.level - 1 } := by
+        unfold ICtx; show s1.pos < s1.posMax ∧ s1.posMax ≤ s1.src.length
+        rw [g rfl, c, a]; exact hc
+      obtain ⟨m2, s2, hr2, a2, b2, c2, d2, e2, f2, p2, g2⟩ := ih (fun q hq => hok q (by simp [hq])) { s1 with level := s1.level - 1 } hc1 f
+      refine ⟨m2, s2, hr2, a2.trans a, b2.trans hlev, c2.trans c, d2.trans d, e2.trans e, f2, ?_, ?_⟩
+      · intro hm; have := p2 hm; have : s1.pos = s.pos := g rfl; show s.pos < s2.pos; simp only at *; omega
+      · intro hm; rw [g2 hm]; exact g rfl
+
+/-- `skipToken` always moves forward, keeps the frame and the memo invariant -/
+theorem skipToken4 (chain : List IRule) (hok : ∀ r ∈ chain, IOK4 r) (mn : Int) (s : IState) (hc : ICtx s) (hk : CacheOK s) :
+    ∃ s', skipToken chain mn s = .ok s' ∧ Fr4 s s' ∧ s.pos < s'.pos := by
+  unfold skipToken
+  cases hg : cacheGet s.cache s.pos with
+  | some p =>
+    simp only
+    refine ⟨_, rfl, ⟨rfl, rfl, rfl, rfl, rfl, hk⟩, ?_⟩
+    unfold cacheGet at hg
+    cases hf : s.cache.find? (·.1 == s.pos) with
+    | none => rw [hf] at hg; cases hg
+    | some q =>
+      rw [hf] at hg
+      simp only [Option.map_some, Option.some.injEq] at hg
+      have hq := List.mem_of_find?_eq_some hf
+      have hq1 := List.find?_some hf
+      simp only [beq_iff_eq] at hq1
+      have := hk q hq
+      show s.pos < p
+      omega
+  | none =>
+    simp only
+    by_cases hlv : s.level < mn
+    · simp only [hlv, if_true]
+      obtain ⟨m, s1, hr, a, b, c, d, e, f, p, g⟩ := runSilent4 chain hok s hc hk
+      rw [hr]
+      simp only
+      cases m with
+      | true =>
+        simp only [if_true]
+        refine ⟨_, rfl, ⟨a, b, c, d, e, ?_⟩, p rfl⟩
+        intro q hq
+        simp only [List.mem_cons] at hq
+        rcases hq with rfl | hq
+        · exact p rfl
+        · exact f q hq
+      | false =>
+        simp only [Bool.false_eq_true, if_false]
+        have hp := g rfl
+        refine ⟨_, rfl, ⟨a, b, c, d, e, ?_⟩, by show s.pos < s1.pos + 1; omega⟩
+        intro q hq
+        simp only [List.mem_cons] at hq
+        rcases hq with rfl | hq
+        · show s.pos < s1.pos + 1; omega
+        · exact f q hq
+    · simp only [hlv, if_false, Bool.false_eq_true]
+      have := hc.1
+      refine ⟨_, rfl, ⟨rfl, rfl, rfl, rfl, rfl, ?_⟩, by show s.pos < s.posMax + 1; omega⟩
+      intro q hq
+      simp only [List.mem_cons] at hq
+      rcases hq with rfl | hq
+      · show s.pos < s.posMax + 1; omega
+      · exact hk q hq
+
+
+theorem Fr4.trans {a b c : IState} (h1 : Fr4 a b) (h2 : Fr4 b c) : Fr4 a c :=
+  ⟨h2.1.trans h1.1, h2.2.1.trans h1.2.1, h2.2.2.1.trans h1.2.2.1, h2.2.2.2.1.trans h1.2.2.2.1, h2.2.2.2.2.1.trans h1.2.2.2.2.1, h2.2.2.2.2.2⟩
+
+theorem labelLoop4 (chain : List IRule) (hok : ∀ r ∈ chain, IOK4 r) (mn : Int) (dn : Bool) :
+    ∀ (fuel level : Nat) (s : IState), s.posMax ≤ s.src.length → s.posMax - s.pos < fuel → CacheOK s →
+      ∃ r s', labelLoop chain mn dn fuel level s = .ok (r, s') ∧ Fr4 s s' ∧ (0 ≤ r → s.pos ≤ r.toNat ∧ r.toNat < s.posMax) := by
+  intro fuel
+  induction fuel with
+  | zero => intro _ s _ hf; omega
+  | succ n ih =>
+    intro level s hend hf hk
+    simp only [labelLoop]
+    split
+    · rename_i hlt
+      have hin : s.pos < s.src.length := by omega
+      rw [List.getElem?_eq_getElem hin]
+      simp only
+      split
+      · exact ⟨_, s, rfl, ⟨rfl, rfl, rfl, rfl, rfl, hk⟩, fun _ => by simp; omega⟩
+      · obtain ⟨s1, hs1, hfr, hp⟩ := skipToken4 chain hok mn s ⟨hlt, hend⟩ hk
+        rw [hs1]
+        simp only
+        have hnle : ¬ (s1.pos ≤ s.pos) := by omega
+        simp only [hnle, if_false]
+        have hrec : ∀ lv, ∃ r s', labelLoop chain mn dn n lv s1 = .ok (r, s') ∧ Fr4 s s' ∧ (0 ≤ r → s.pos ≤ r.toNat ∧ r.toNat < s.posMax) := by
+          intro lv
+          obtain ⟨r, s2, h2, hfr2, hr2⟩ := ih lv s1 (by rw [hfr.1, hfr.2.2.1]; exact hend) (by rw [hfr.2.2.1]; omega) hfr.2.2.2.2.2
+          exact ⟨r, s2, h2, hfr.trans hfr2, fun h0 => by have := hr2 h0; rw [hfr.2.2.1] at this; omega⟩
+        split
+        · split
+          · exact hrec _
+          · split
+            · exact ⟨-1, s1, rfl, hfr, fun h => by omega⟩
+            · exact hrec _
+        · exact hrec _
+    · exact ⟨-1, s, rfl, ⟨rfl, rfl, rfl, rfl, rfl, hk⟩, fun h => by omega⟩
+
+theorem parseLinkLabel4 (chain : List IRule) (hok : ∀ r ∈ chain, IOK4 r) (mn : Int) (s : IState) (start : Nat) (dn : Bool)
+    (hend : s.posMax ≤ s.src.length) (hk : CacheOK s) :
+    ∃ r s', parseLinkLabel chain mn s start dn = .ok (r, s') ∧ Fr4 s s' ∧ s'.pos = s.pos ∧ (0 ≤ r → start + 1 ≤ r.toNat ∧ r.toNat < s.posMax) := by
+  unfold parseLinkLabel
+  obtain ⟨r, s1, h1, hfr, hr⟩ := labelLoop4 chain hok mn dn (s.posMax - start + 1) 1 { s with pos := start + 1 } hend
+    (by show s.posMax - (start + 1) < s.posMax - start + 1; omega) hk
+  rw [h1]
+  exact ⟨r, _, rfl, hfr, rfl, hr⟩
+
+theorem skipBlanksNl_ge (src : List Char) (max : Nat) : ∀ (fuel pos : Nat), pos ≤ skipBlanksNl src max fuel pos := by
+  intro fuel
+  induction fuel with
+  | zero => intro pos; exact Nat.le_refl _
+  | succ n ih =>
+    intro pos
+    simp only [skipBlanksNl]
+    split
+    · split
+      · split
+        · have := ih (pos + 1); omega
+        · exact Nat.le_refl _
+      · exact Nat.le_refl _
+    · exact Nat.le_refl _
+
+theorem destAngle_ge (src : List Char) (max : Nat) : ∀ (fuel pos e : Nat), destAngle src max fuel pos = some e → pos ≤ e := by
+  intro fuel
+  induction fuel with
+  | zero => intro pos e h; simp [destAngle] at h
+  | succ n ih =>
+    intro pos e h
+    simp only [destAngle] at h
+    split at h
+    · split at h
+      · have := ih _ _ h; omega
+      · split at h
+        · cases h
+        · split at h
+          · cases h
+          · split at h
+            · simp only [Option.some.injEq] at h; omega
+            · split at h
+              · have := ih _ _ h; omega
+              · have := ih _ _ h; omega
+    · cases h
+
+theorem destBare_ge (src : List Char) (max : Nat) : ∀ (fuel pos level e l : Nat), destBare src max fuel pos level = some (e, l) → pos ≤ e := by
+  intro fuel
+  induction fuel with
+  | zero => intro pos level e l h; simp only [destBare, Option.some.injEq, Prod.mk.injEq] at h; omega
+  | succ n ih =>
+    intro pos level e l h
+    simp only [destBare] at h
+    repeat' split at h
+    all_goals first
+      | (simp only [Option.some.injEq, Prod.mk.injEq] at h; omega)
+      | (have := ih _ _ _ _ h; omega)
+      | (cases h; done)
+
+theorem titleScan_ge (src : List Char) (max : Nat) (marker : Char) : ∀ (fuel pos e : Nat), titleScan src max marker fuel pos = some e → pos ≤ e := by
+  intro fuel
+  induction fuel with
+  | zero => intro pos e h; simp [titleScan] at h
+  | succ n ih =>
+    intro pos e h
+    simp only [titleScan] at h
+    repeat' split at h
+    all_goals first
+      | (simp only [Option.some.injEq] at h; omega)
+      | (have := ih _ _ h; omega)
+      | (cases h; done)
+
+theorem parseLinkDestination_ge (ext : IExt) (src : List Char) (pos max dpos : Nat) (str : List Char)
+    (h : parseLinkDestination ext src pos max = some (dpos, str)) : pos ≤ dpos := by
+  unfold parseLinkDestination at h
+  split at h
+  · split at h
+    · rename_i e he
+      simp only [Option.some.injEq, Prod.mk.injEq] at h
+      have := destAngle_ge _ _ _ _ _ he; omega
+    · cases h
+  · split at h
+    · cases h
+    · rename_i e level he
+      split at h
+      · cases h
+      · split at h
+        · cases h
+        · simp only [Option.some.injEq, Prod.mk.injEq] at h
+          have := destBare_ge _ _ _ _ _ _ _ he; omega
+
+theorem parseLinkTitle_ge (ext : IExt) (src : List Char) (pos max tpos : Nat) (str : List Char)
+    (h : parseLinkTitle ext src pos max = some (tpos, str)) : pos ≤ tpos := by
+  unfold parseLinkTitle at h
+  split at h
+  · cases h
+  · split at h
+    · cases h
+    · split at h
+      · cases h
+      · simp only at h
+        cases he : titleScan src max (if (_ == '(') = true then ')' else _) (max - pos + 1) (pos + 1) with
+        | none => rw [he] at h; cases h
+        | some e =>
+          rw [he] at h
+          simp only [Option.some.injEq, Prod.mk.injEq] at h
+          have := titleScan_ge _ _ _ _ _ _ he; omega
+
+
+/-! ### the pieces of the link rule -/
+
+theorem linkDestTitle_ge (ext : IExt) (s : IState) (maximum p1 : Nat) : p1 ≤ (linkDestTitle ext s maximum p1).1 := by
+  unfold linkDestTitle
+  cases hd : parseLinkDestination ext s.src p1 s.posMax with
+  | none => exact Nat.le_refl _
+  | some q =>
+    obtain ⟨dpos, dstr⟩ := q
+    simp only
+    have hdge := parseLinkDestination_ge _ _ _ _ _ _ hd
+    have hp2 : p1 ≤ (if validateLink (ext.normLink dstr) = true then dpos else p1) := by split <;> omega
+    generalize (if validateLink (ext.normLink dstr) = true then dpos else p1) = p2 at hp2
+    have h3 := skipBlanksNl_ge s.src maximum (maximum - p2) p2
+    cases ht : parseLinkTitle ext s.src (skipBlanksNl s.src maximum (maximum - p2) p2) s.posMax with
+    | none => simp only; omega
+    | some q2 =>
+      obtain ⟨tpos, tstr⟩ := q2
+      simp only
+      have htge := parseLinkTitle_ge _ _ _ _ _ _ ht
+      have h4 := skipBlanksNl_ge s.src maximum (maximum - tpos) tpos
+      split <;> (simp only; omega)
+
+theorem linkInline_ge (ext : IExt) (s : IState) (labelEnd maximum pos1 : Nat) (h t : List Char) (pr : Bool)
+    (hi : linkInline ext s labelEnd maximum = some (pos1, h, t, pr)) : labelEnd + 1 ≤ pos1 := by
+  unfold linkInline at hi
+  simp only at hi
+  split at hi
+  · have hp1 := skipBlanksNl_ge s.src maximum (maximum - (labelEnd + 1)) (labelEnd + 1 + 1)
+    split at hi
+    · cases hi
+    · simp only [Option.some.injEq, Prod.mk.injEq] at hi
+      have := linkDestTitle_ge ext s maximum (skipBlanksNl s.src maximum (maximum - (labelEnd + 1)) (labelEnd + 1 + 1))
+      omega
+  · simp only [Option.some.injEq, Prod.mk.injEq] at hi
+    omega
+
+theorem linkSecondLabel4 (mn : Int) (inner : List IRule) (hok : ∀ r ∈ inner, IOK4 r) (s : IState) (labelEnd maximum pos1 : Nat)
+    (hend : s.posMax ≤ s.src.length) (hk : CacheOK s) (hp1 : labelEnd + 1 ≤ pos1) :
+    ∃ pos2 label s2, linkSecondLabel mn inner s labelEnd maximum pos1 = .ok (pos2, label, s2) ∧ Fr4 s s2 ∧ s2.pos = s.pos ∧ labelEnd + 1 ≤ pos2 := by
+  unfold linkSecondLabel
+  split
+  · obtain ⟨r, s2, h2, hfr, hpos, hr⟩ := parseLinkLabel4 inner hok mn s pos1 false hend hk
+    rw [h2]
+    simp only
+    split
+    · rename_i hge
+      have := hr hge
+      exact ⟨_, _, s2, rfl, hfr, hpos, by omega⟩
+    · exact ⟨_, _, s2, rfl, hfr, hpos, Nat.le_refl _⟩
+  · exact ⟨_, _, s, rfl, ⟨rfl, rfl, rfl, rfl, rfl, hk⟩, rfl, Nat.le_refl _⟩
+
+theorem linkRef4 (lx : LExt) (mn : Int) (inner : List IRule) (hok : ∀ r ∈ inner, IOK4 r) (s : IState) (labelStart labelEnd maximum pos1 : Nat)
+    (hend : s.posMax ≤ s.src.length) (hk : CacheOK s) (hp1 : labelEnd + 1 ≤ pos1) :
+    ∃ s2 o, linkRef lx mn inner s labelStart labelEnd maximum pos1 = .ok (s2, o) ∧ Fr4 s s2 ∧ s2.pos = s.pos
+      ∧ (∀ pos h t l, o = some (pos, h, t, l) → labelEnd + 1 ≤ pos) := by
+  unfold linkRef
+  split
+  · exact ⟨s, none, rfl, ⟨rfl, rfl, rfl, rfl, rfl, hk⟩, rfl, fun _ _ _ _ h => by cases h⟩
+  · obtain ⟨pos2, label, s2, hl, hfr, hpos, hge⟩ := linkSecondLabel4 mn inner hok s labelEnd maximum pos1 hend hk hp1
+    rw [hl]
+    simp only
+    split
+    · exact ⟨s2, none, rfl, hfr, hpos, fun _ _ _ _ h => by cases h⟩
+    · refine ⟨s2, _, rfl, hfr, hpos, ?_⟩
+      intro pos h t l he
+      simp only [Option.some.injEq, Prod.mk.injEq] at he
+      omega
+
+theorem pushPending_fr (s : IState) (hk : CacheOK s) : Fr4 s s.pushPending := ⟨rfl, rfl, rfl, rfl, rfl, hk⟩
+
+theorem pushOpen_fields (s : IState) (ty tag : String) (a : List (String × AttrVal)) (md : List (String × String)) :
+    (s.pushOpen ty tag a md).src = s.src ∧ (s.pushOpen ty tag a md).posMax = s.posMax ∧ (s.pushOpen ty tag a md).pos = s.pos
+      ∧ (s.pushOpen ty tag a md).level = s.level + 1 ∧ (s.pushOpen ty tag a md).cache = s.cache
+      ∧ (∃ d i, (s.pushOpen ty tag a md).scopes = d :: s.scopes ∧ (s.pushOpen ty tag a md).openAt = i :: s.openAt) := by
+  unfold IState.pushOpen
+  simp only
+  obtain ⟨a1, a2, a3, a4⟩ := pushA_frame s ty tag 1 a "" "" ""
+  refine ⟨a1, a2, a3, ?_, pushA_cache _ _ _ _ _ _ _ _, ?_⟩
+  · rw [a4]; simp
+  · exact ⟨(s.pushA ty tag 1 a "" "" "").delimiters, (s.pushA ty tag 1 a "" "" "").tokens.length - 1,
+      by rw [pushA_scopes], by rw [pushA_openAt]⟩
+
+theorem linkEmit4 (lx : LExt) (mn : Int) (inner : List IRule) (hok : ∀ r ∈ inner, IOK4 r) (s : IState) (labelStart labelEnd : Nat)
+    (href title label : List Char) (hle : labelEnd ≤ s.src.length) (hk : CacheOK s) :
+    ∃ s3, linkEmit lx mn inner s labelStart labelEnd href title label = .ok s3 ∧ s3.src = s.src ∧ s3.level = s.level
+      ∧ s3.scopes = s.scopes ∧ s3.openAt = s.openAt ∧ CacheOK s3 := by
+  unfold linkEmit
+  simp only
+  generalize hat : ([("href", AttrVal.s (String.ofList href))] ++ if title.isEmpty = true then [] else [("title", AttrVal.s (String.ofList title))]) = attrs
+  generalize hmd : (if (!label.isEmpty && lx.storeLabels) = true then [("label", String.ofList label)] else ([] : List (String × String))) = metaD
+  obtain ⟨o1, o2, o3, o4, o5, d, i, o6, o7⟩ := pushOpen_fields { s with pos := labelStart, posMax := labelEnd } "link_open" "a" attrs metaD
+  generalize ({ s with pos := labelStart, posMax := labelEnd } : IState).pushOpen "link_open" "a" attrs metaD = s1 at o1 o2 o3 o4 o5 o6 o7
+  -- the nested run
+  have hk1 : CacheOK { s1 with linkLevel := s1.linkLevel + 1 } := by unfold CacheOK; show ∀ p ∈ s1.cache, _; rw [o5]; exact hk
+  unfold innerTokenize
+  obtain ⟨s2, h2, f1, f2, f3, f4, f5, f6⟩ := loop4 inner hok mn (({ s1 with linkLevel := s1.linkLevel + 1 } : IState).posMax - ({ s1 with linkLevel := s1.linkLevel + 1 } : IState).pos + 1)
+    false { s1 with linkLevel := s1.linkLevel + 1 } (by show s1.posMax ≤ s1.src.length; rw [o1, o2]; exact hle) (by omega) hk1 (fun _ => rfl)
+  rw [h2]
+  simp only
+  -- flush, then the closing push
+  have hfl : ∃ s2', (if s2.pending.isEmpty = true then s2 else s2.pushPending) = s2' ∧ s2'.src = s2.src ∧ s2'.level = s2.level
+      ∧ s2'.scopes = s2.scopes ∧ s2'.openAt = s2.openAt ∧ s2'.cache = s2.cache := by
+    split
+    · exact ⟨s2, rfl, rfl, rfl, rfl, rfl, rfl⟩
+    · exact ⟨_, rfl, rfl, rfl, rfl, rfl, rfl⟩
+  obtain ⟨s2', e2, g1, g2, g3, g4, g5⟩ := hfl
+  rw [e2]
+  unfold IState.pushClose
+  simp only
+  have hsc : ({ s2' with linkLevel := s2'.linkLevel - 1 } : IState).scopes = d :: s.scopes := by show s2'.scopes = _; rw [g3, f4]; exact o6
+  have hop : ({ s2' with linkLevel := s2'.linkLevel - 1 } : IState).openAt = i :: s.openAt := by show s2'.openAt = _; rw [g4, f5]; exact o7
+  have hflush : ∀ x : IState, (if x.pending.isEmpty = true then x else x.pushPending).scopes = x.scopes
+      ∧ (if x.pending.isEmpty = true then x else x.pushPending).openAt = x.openAt
+      ∧ (if x.pending.isEmpty = true then x else x.pushPending).src = x.src
+      ∧ (if x.pending.isEmpty = true then x else x.pushPending).level = x.level
+      ∧ (if x.pending.isEmpty = true then x else x.pushPending).cache = x.cache := by
+    intro x; split <;> exact ⟨rfl, rfl, rfl, rfl, rfl⟩
+  obtain ⟨q1, q2, q3, q4, q5⟩ := hflush { s2' with linkLevel := s2'.linkLevel - 1 }
+  generalize (if ({ s2' with linkLevel := s2'.linkLevel - 1 } : IState).pending.isEmpty = true then ({ s2' with linkLevel := s2'.linkLevel - 1 } : IState)
+    else ({ s2' with linkLevel := s2'.linkLevel - 1 } : IState).pushPending) = s0 at q1 q2 q3 q4 q5
+  rw [hsc] at q1
+  rw [hop] at q2
+  rw [q1, q2]
+  simp only
+  obtain ⟨p1, p2, p3, p4⟩ := push_frame { s0 with metas := (i, s0.delimiters) :: s0.metas, delimiters := d, scopes := s.scopes, openAt := s.openAt }
+    "link_close" "a" (-1) "" "" ""
+  refine ⟨_, rfl, ?_, ?_, ?_, ?_, ?_⟩
+  · rw [p1]; show s0.src = s.src; rw [q3]; show s2'.src = _; rw [g1, f1]; show s1.src = _; rw [o1]
+  · rw [p4]; simp only [show ((-1 : Int) < 0) from by decide, if_true]
+    show s0.level - 1 = s.level
+    rw [q4]; show s2'.level - 1 = _; rw [g2, f2]; show s1.level - 1 = _; rw [o4]; show s.level + 1 - 1 = s.level; omega
+  · rw [push_scopes]
+  · rw [push_openAt]
+  · unfold CacheOK; rw [push_cache]; show ∀ p ∈ s0.cache, _; rw [q5]; show ∀ p ∈ s2'.cache, _; rw [g5]; exact f6
+
+
+/-- **the link rule keeps the two-mode contract** when its inner chain does -/
+theorem iok4_link (ext : IExt) (lx : LExt) (mn : Int) (inner : List IRule) (hok : ∀ r ∈ inner, IOK4 r) : IOK4 (ruleLink ext lx mn inner) := by
+  intro s silent hc hk
+  have hin : s.pos < s.src.length := by have := hc.1; have := hc.2; omega
+  unfold ruleLink
+  rw [List.getElem?_eq_getElem hin]
+  simp only
+  split
+  · exact ⟨false, s, rfl, Ret4.refl_false s hk⟩
+  · obtain ⟨r, s1, h1, hfr1, hpos1, hr1⟩ := parseLinkLabel4 inner hok mn s s.pos true hc.2 hk
+    rw [h1]
+    simp only
+    have ret_false : ∀ x : IState, Fr4 s x → x.pos = s.pos → Ret4 s false x :=
+      fun x hfr hp => ⟨hfr.1, hfr.2.1, hfr.2.2.1, hfr.2.2.2.1, hfr.2.2.2.2.1, hfr.2.2.2.2.2, by simp, fun _ => hp⟩
+    split
+    · exact ⟨false, s1, rfl, ret_false s1 hfr1 hpos1⟩
+    · rename_i hneg
+      have hr0 : 0 ≤ r := by omega
+      obtain ⟨hlo, hhi⟩ := hr1 hr0
+      have hend1 : s1.posMax ≤ s1.src.length := by rw [hfr1.1, hfr1.2.2.1]; exact hc.2
+      cases hi : linkInline ext s1 r.toNat s.posMax with
+      | none => exact ⟨false, s1, rfl, ret_false s1 hfr1 hpos1⟩
+      | some q =>
+        obtain ⟨pos1, href1, title1, pr⟩ := q
+        simp only
+        have hp1 := linkInline_ge _ _ _ _ _ _ _ _ hi
+        -- the reference form, or not
+        have href : ∃ s2 o, (if (!pr) = true then (Except.ok (s1, some (pos1, href1, title1, [])) : Except PyErr (IState × Option (Nat × List Char × List Char × List Char)))
+              else linkRef lx mn inner s1 (s.pos + 1) r.toNat s.posMax pos1) = .ok (s2, o) ∧ Fr4 s s2 ∧ s2.pos = s.pos
+            ∧ (∀ pos h t l, o = some (pos, h, t, l) → r.toNat + 1 ≤ pos) := by
+          split
+          · exact ⟨s1, _, rfl, hfr1, hpos1, fun pos h t l he => by simp only [Option.some.injEq, Prod.mk.injEq] at he; omega⟩
+          · obtain ⟨s2, o, h2, hfr2, hpos2, hge⟩ := linkRef4 lx mn inner hok s1 (s.pos + 1) r.toNat s.posMax pos1 hend1 hfr1.2.2.2.2.2 hp1
+            exact ⟨s2, o, h2, hfr1.trans hfr2, hpos2.trans hpos1, hge⟩
+        obtain ⟨s2, o, h2, hfr2, hpos2, hge⟩ := href
+        rw [h2]
+        cases o with
+        | none =>
+          simp only
+          exact ⟨false, _, rfl, hfr2.1, hfr2.2.1, hfr2.2.2.1, hfr2.2.2.2.1, hfr2.2.2.2.2.1, hfr2.2.2.2.2.2, by simp, fun _ => rfl⟩
+        | some q2 =>
+          obtain ⟨pos, href, title, label⟩ := q2
+          simp only
+          have hposge := hge pos href title label rfl
+          cases silent with
+          | true =>
+            simp only [if_true]
+            exact ⟨true, _, rfl, hfr2.1, hfr2.2.1, rfl, hfr2.2.2.2.1, hfr2.2.2.2.2.1, hfr2.2.2.2.2.2, fun _ => by show s.pos < pos; omega, by simp⟩
+          | false =>
+            simp only [Bool.false_eq_true, if_false]
+            obtain ⟨s3, h3, e1, e2, e3, e4, e5⟩ := linkEmit4 lx mn inner hok s2 (s.pos + 1) r.toNat href title label
+              (by rw [hfr2.1]; have := hc.2; omega) hfr2.2.2.2.2.2
+            rw [h3]
+            simp only
+            exact ⟨true, _, rfl, e1.trans hfr2.1, e2.trans hfr2.2.1, rfl, e3.trans hfr2.2.2.2.1, e4.trans hfr2.2.2.2.2.1, e5,
+              fun _ => by show s.pos < pos; omega, by simp⟩
+
+/-- every rule of every chain with the link rule keeps the two-mode contract, whatever the budget -/
+theorem linkChain_ok4 (cls : QCls) (ext : IExt) (lx : LExt) (newline escape backticks strike emphasis link autolink htmlInline entity : Bool) (mn : Int) :
+    ∀ d : Nat, ∀ r ∈ linkChain cls ext lx newline escape backticks strike emphasis link autolink htmlInline entity mn d, IOK4 r := by
+  intro d
+  induction d with
+  | zero => intro r hr; simp [linkChain] at hr
+  | succ d ih =>
+    intro r hr
+    simp only [linkChain, List.mem_append, List.mem_singleton] at hr
+    rcases hr with ((((((((hr | hr) | hr) | hr) | hr) | hr) | hr) | hr) | hr) | hr
+    · subst hr; exact iok4_text
+    · split at hr
+      · simp at hr; subst hr; exact iok4_newline
+      · cases hr
+    · split at hr
+      · simp at hr; subst hr; exact iok4_escape
+      · cases hr
+    · split at hr
+      · simp at hr; subst hr; exact iok4_backticks
+      · cases hr
+    · split at hr
+      · simp at hr; subst hr; exact iok4_strike cls
+      · cases hr
+    · split at hr
+      · simp at hr; subst hr; exact iok4_emphasis cls
+      · cases hr
+    · split at hr
+      · simp at hr; subst hr; exact iok4_link ext lx mn _ ih
+      · cases hr
+    · split at hr
+      · simp at hr; subst hr; exact iok4_autolink ext
+      · cases hr
+    · split at hr
+      · simp at hr; subst hr; exact iok4_htmlInline ext
+      · cases hr
+    · split at hr
+      · simp at hr; subst hr; exact iok4_entity ext
+      · cases hr
+
+/-- **C01.link_total** — the inline sub-parser with the `link` rule (ten of the twelve inline rules: `skipToken` with its position memo,
+label / destination / title parsing, references, nested tokenization of the label, delimiter scopes), any rule subset, any budget:
+for every source, `maxNesting`, classification, external functions and reference table the parse — tokenize loop and the second
+chain over all scopes — returns a token list.  No exception, and the two loops without a progress test in the code (`tokenize`,
+`parseLinkLabel`) always move forward: every memo entry points forward (`CacheOK`) and every silent call that reports a match
+advances the position. -/
+theorem link_total (cls : QCls) (ext : IExt) (lx : LExt) (newline escape backticks strike emphasis link autolink htmlInline entity fragJoin : Bool)
+    (mn : Int) (d : Nat) (src : List Char) :
+    ∃ ts, inlineParse (linkChain cls ext lx newline escape backticks strike emphasis link autolink htmlInline entity mn d)
+      (linkPost strike emphasis) fragJoin mn src = .ok ts := by
+  unfold inlineParse tokenize
+  obtain ⟨s', h, _⟩ := loop4 _ (linkChain_ok4 cls ext lx newline escape backticks strike emphasis link autolink htmlInline entity mn d) mn
+    ((IState.init src).posMax - (IState.init src).pos + 1) false (IState.init src) (Nat.le_refl _) (by omega)
+    (by intro p hp; simp [IState.init] at hp) (fun _ => rfl)
+  rw [h]
+  exact ⟨_, rfl⟩
+
+/-! non-vacuity: inline links with titles, a rejected destination, a reference link, emphasis across and inside a link, nested brackets -/
+def lx0 : LExt := { hasRefs := true, normRef := fun l => l.map Char.toUpper, storeLabels := false,
+                    refs := fun l => if l = "R".toList then some ("/ref".toList, "T".toList) else none }
+
+example : itypesOf (inlineParse (linkChain ⟨fun c => (33 ≤ c && c ≤ 47) || (58 ≤ c && c ≤ 64) || (91 ≤ c && c ≤ 96) || (123 ≤ c && c ≤ 126),
+        fun c => c == 32 || c == 9 || c == 10⟩ { entity := fun _ => none, reformat := id, normText := id, html := false } lx0
+        true true true false true true true false false 20 22) (linkPost false true) true 20
+      "*a [b *c*](/u \"t\") [x](javascript:y) [z][r] [[n]](m)* [q".toList)
+    = some ["em_open", "text", "link_open", "text", "em_open", "text", "em_close", "link_close", "text", "link_open", "text", "link_close",
+            "text", "link_open", "text", "link_close", "em_close", "text"] := by decide +kernel
+
 end MdIt.C01
